@@ -2,8 +2,10 @@ package sigcli
 
 import (
 	"context"
+	"errors"
 	"fmt"
 	"math/rand/v2"
+	"strings"
 	"sync/atomic"
 	"testing"
 
@@ -15,8 +17,134 @@ import (
 
 // c19Item is one step of a malicious-relay script.
 type c19Item struct {
-	Kind string // honest | forge:<kind> | reopen | close-open | noise-ack | noise-clear | unknown-oneof | nil-recv
+	// honest | forge:<kind> | derive:<kind> | replay | replay-newseq | reopen | close-open |
+	// kill-stream | noise-ack | noise-clear | clear-last | unknown-oneof | nil-recv
+	Kind string
 	Data string
+	// Back selects the source of a derive / replay item: the Back-th most recent
+	// honest original delivered earlier in this script (1 = the latest).
+	Back int `json:",omitempty"`
+	// Burst: deliver right behind the previous item, without waiting for a
+	// quiescent state in between (the application may not have taken it yet).
+	Burst bool `json:",omitempty"`
+}
+
+func (it c19Item) label() string {
+	l := it.Kind
+	if it.Back > 0 {
+		l += fmt.Sprintf("@%d", it.Back)
+	}
+	if it.Burst {
+		l += "!"
+	}
+	return l
+}
+
+func isDerive(k string) bool { return strings.HasPrefix(k, "derive:") }
+
+// genC19HistScript generates a script of HISTORY-dependent forgeries: every
+// forged delivery is derived from an honest message of A that the client has
+// already accepted earlier on the same peer tracker (same signature bytes with
+// another payload / hash type / pub_key field / sender, the payload under the
+// signature of another accepted message, ...), at distance 0..k from its
+// source, with exact replays, other honest messages, re-opens, Closed+Opened
+// and stream resets in between.
+func genC19HistScript(rng *rand.Rand, inst int) []c19Item {
+	n := 6 + rng.IntN(7)
+	var items []c19Item
+	nHonest := 0
+	data := func() string { return fmt.Sprintf("c19h-i%d-s%d", inst, len(items)) }
+	back := func() int {
+		b := 1
+		switch x := rng.IntN(20); {
+		case x >= 17:
+			b = 3
+		case x >= 12:
+			b = 2
+		}
+		if b > nHonest {
+			b = nHonest
+		}
+		return b
+	}
+	derive := func(b int) c19Item {
+		k := g8sig.DeriveKinds[rng.IntN(len(g8sig.DeriveKinds))]
+		it := c19Item{Kind: "derive:" + k, Data: data() + "-fresh", Back: b}
+		if len(items) > 0 {
+			if p := items[len(items)-1].Kind; (p == "honest" || strings.HasPrefix(p, "replay")) && rng.IntN(10) < 3 {
+				it.Burst = true
+			}
+		}
+		return it
+	}
+	honest := func() c19Item { nHonest++; return c19Item{Kind: "honest", Data: data()} }
+	// the motif every script contains at least once: original accepted, then
+	// (after nothing / a re-open / other traffic) a variant of it
+	motif := func() {
+		items = append(items, honest())
+		b := 1
+		switch rng.IntN(12) {
+		case 0, 1, 2, 3, 4:
+		case 5:
+			items = append(items, c19Item{Kind: "reopen"})
+		case 6:
+			items = append(items, c19Item{Kind: "close-open"})
+		case 7:
+			items = append(items, c19Item{Kind: "kill-stream"})
+		case 8:
+			items = append(items, c19Item{Kind: []string{"replay", "replay-newseq"}[rng.IntN(2)], Back: 1})
+		case 9:
+			items = append(items, honest())
+			b = 2
+		case 10:
+			items = append(items, c19Item{Kind: "clear-last"})
+		case 11:
+			k := g8sig.ForgeKinds[rng.IntN(len(g8sig.ForgeKinds))]
+			items = append(items, c19Item{Kind: "forge:" + k, Data: data() + "-" + k})
+		}
+		items = append(items, derive(b))
+	}
+	at := rng.IntN(3)
+	for len(items) < n {
+		if len(items) >= at && at >= 0 {
+			motif()
+			at = -1
+			continue
+		}
+		if nHonest == 0 {
+			if rng.IntN(3) == 0 {
+				k := g8sig.ForgeKinds[rng.IntN(len(g8sig.ForgeKinds))]
+				items = append(items, c19Item{Kind: "forge:" + k, Data: data() + "-" + k})
+			} else {
+				items = append(items, honest())
+			}
+			continue
+		}
+		switch x := rng.IntN(100); {
+		case x < 42:
+			items = append(items, derive(back()))
+		case x < 60:
+			items = append(items, honest())
+		case x < 68:
+			items = append(items, c19Item{Kind: []string{"replay", "replay-newseq"}[rng.IntN(2)], Back: back()})
+		case x < 74:
+			k := g8sig.ForgeKinds[rng.IntN(len(g8sig.ForgeKinds))]
+			items = append(items, c19Item{Kind: "forge:" + k, Data: data() + "-" + k})
+		case x < 80:
+			items = append(items, c19Item{Kind: "reopen"})
+		case x < 85:
+			items = append(items, c19Item{Kind: "close-open"})
+		case x < 89:
+			items = append(items, c19Item{Kind: "kill-stream"})
+		case x < 93:
+			items = append(items, c19Item{Kind: []string{"noise-ack", "noise-clear", "clear-last"}[rng.IntN(3)]})
+		case x < 96:
+			items = append(items, c19Item{Kind: []string{"unknown-oneof", "nil-recv"}[rng.IntN(2)]})
+		default:
+			motif()
+		}
+	}
+	return items
 }
 
 func genC19Script(rng *rand.Rand, inst int) []c19Item {
@@ -26,37 +154,44 @@ func genC19Script(rng *rand.Rand, inst int) []c19Item {
 		d := fmt.Sprintf("c19-i%d-s%d", inst, i)
 		switch x := rng.IntN(20); {
 		case x < 6:
-			items = append(items, c19Item{"honest", d})
+			items = append(items, c19Item{Kind: "honest", Data: d})
 		case x < 16:
 			k := g8sig.ForgeKinds[rng.IntN(len(g8sig.ForgeKinds))]
-			items = append(items, c19Item{"forge:" + k, d + "-" + k})
+			items = append(items, c19Item{Kind: "forge:" + k, Data: d + "-" + k})
 		case x == 16:
-			items = append(items, c19Item{"reopen", ""})
+			items = append(items, c19Item{Kind: "reopen"})
 		case x == 17:
-			items = append(items, c19Item{"close-open", ""})
+			items = append(items, c19Item{Kind: "close-open"})
 		case x == 18:
-			items = append(items, c19Item{[]string{"noise-ack", "noise-clear"}[rng.IntN(2)], ""})
+			items = append(items, c19Item{Kind: []string{"noise-ack", "noise-clear"}[rng.IntN(2)]})
 		default:
-			items = append(items, c19Item{[]string{"unknown-oneof", "nil-recv"}[rng.IntN(2)], ""})
+			items = append(items, c19Item{Kind: []string{"unknown-oneof", "nil-recv"}[rng.IntN(2)]})
 		}
 	}
 	// make sure both classes occur
-	items[rng.IntN(len(items))] = c19Item{"honest", fmt.Sprintf("c19-i%d-hx", inst)}
+	items[rng.IntN(len(items))] = c19Item{Kind: "honest", Data: fmt.Sprintf("c19-i%d-hx", inst)}
 	return items
 }
 
 func TestC19(t *testing.T) {
 	r := vf.Start(t, "C19", vf.Exploration)
 	defer r.Finish()
-	r.SetRule("case = one script played by a scripted MALICIOUS relay (harness implementation of SRPCSignalingClient) to a real signaling client B holding a session with A while B's application calls Recv in a loop: Opened(e), then 5-10 PRNG-chosen deliveries mixing honest messages (signed by A under the signaling context, unique payloads) with forged ones (20 classes: bit flips in payload / signature / sender, third key claiming A, A-signed under the pubsub or a near-miss context, authentic message of C, authentic message of B itself, A's signature re-attributed to C, pub_key field of C, empty / nil / truncated signature, hash_type 0 / swapped, appended / empty payload, signature of another payload, nil envelope) plus re-opens, Closed, stray acks / clears, unknown oneof. After every delivery the whole batch is brought to a quiescent state (all goroutines parked, relay stream re-established if the client tore it down). Non-trivial = at least one honest message reached the application AND at least one forged delivery was consumed by the client; distinct = distinct kind sequences. Oracle (harness owns ground truth): every message returned by Recv is, field by field, the signed envelope of an honest delivery of this script; any other returned message is a violation keyed by the forgery class")
+	r.SetRule("case = one script played by a scripted MALICIOUS relay (harness implementation of SRPCSignalingClient) to a real signaling client B holding a session with A while B's application calls Recv in a loop: Opened(e), then 5-10 PRNG-chosen deliveries mixing honest messages (signed by A under the signaling context, unique payloads) with forged ones (20 classes: bit flips in payload / signature / sender, third key claiming A, A-signed under the pubsub or a near-miss context, authentic message of C, authentic message of B itself, A's signature re-attributed to C, pub_key field of C, empty / nil / truncated signature, hash_type 0 / swapped, appended / empty payload, signature of another payload, nil envelope) plus re-opens, Closed, stray acks / clears, unknown oneof. A second family of scripts (6-12+ steps) plays HISTORY-dependent forgeries: each is derived from an honest message of A that the same peer tracker accepted earlier in the script (A's accepted signature bytes + sender with a new / bit-flipped / appended / truncated payload, with another hash type, with a pub_key field of C or A and a new payload, re-attributed to C or B; the payload under the signature of another accepted message and vice versa; the payload re-signed by C or under another context; extended signature), taken from the latest / previous-but-one / third-latest accepted message and delivered immediately after its source (also in one burst without a quiescent point), after exact replays, after other honest or forged messages, after Opened(e+1), Closed+Opened, a stray ClearMsg of the source, or a stream reset by the relay (new Session call on the same tracker); every such script holds at least one original->variant motif. Exact replays of accepted messages (also under another outer seqno) count as honest deliveries. After every delivery the whole batch is brought to a quiescent state (all goroutines parked, relay stream re-established if the client tore it down). Non-trivial = at least one honest message reached the application AND at least one forged delivery was consumed by the client; distinct = distinct kind sequences. Oracle (harness owns ground truth): every message returned by Recv is, field by field, the signed envelope of an honest delivery of this script; any other returned message is a violation keyed by the forgery class")
 	r.Assume("scripted relay passes Go structs (no wire encoding); the adversary is the one listed in the property quantifier, a replay of a message A addressed to a third peer is not exercised (DESIGN C19 notes)")
 	rng := r.Rand("c19-scripts")
-	n := r.N(240, 8000)
+	n0 := r.N(240, 8000)
+	nh := r.N(480, 12000)
+	n := n0 + nh
 	scripts := make([][]c19Item, n)
 	seeds := make([]uint64, n)
-	for i := range scripts {
+	for i := 0; i < n0; i++ {
 		scripts[i] = genC19Script(rng, i)
 		seeds[i] = rng.Uint64()
+	}
+	hrng := r.Rand("c19-history-scripts")
+	for i := n0; i < n; i++ {
+		scripts[i] = genC19HistScript(hrng, i)
+		seeds[i] = hrng.Uint64()
 	}
 	idRng := r.Rand("c19-keys")
 	pool := keys.Pool(idRng, 12)
@@ -72,7 +207,7 @@ func runC19(r *vf.Run, idx int, script []c19Item, seed uint64, pool []*keys.Iden
 	a, lb, c := pool[idx%len(pool)], pool[(idx+1)%len(pool)], pool[(idx+2)%len(pool)]
 	kinds := make([]string, len(script))
 	for i, it := range script {
-		kinds[i] = it.Kind
+		kinds[i] = it.label()
 	}
 	sig := joinKinds(kinds)
 	r.Begin(fmt.Sprintf("C19 script %d: %s", idx, sig))
@@ -101,9 +236,28 @@ func runC19(r *vf.Run, idx int, script []c19Item, seed uint64, pool []*keys.Iden
 		msg    *signaling_rpc.SessionMsg
 	}
 	var pushed []delivered
+	// honest originals delivered so far (sources of the history-dependent forgeries)
+	var originals []*signaling_rpc.SessionMsg
+	source := func(back int) (h, h2 *signaling_rpc.SessionMsg) {
+		if back < 1 {
+			back = 1
+		}
+		if back > len(originals) {
+			back = len(originals)
+		}
+		i := len(originals) - back
+		h, h2 = originals[i], originals[i]
+		if i > 0 {
+			h2 = originals[i-1]
+		} else if i+1 < len(originals) {
+			h2 = originals[i+1]
+		}
+		return
+	}
+	killed := false
 	epoch := uint64(1)
 	nStreams := 0
-	honestSeen, forgedConsumed := 0, 0
+	honestSeen, forgedConsumed, derivedDelivered := 0, 0, 0
 	checked := 0
 
 	check := func(step int) bool {
@@ -136,23 +290,30 @@ func runC19(r *vf.Run, idx int, script []c19Item, seed uint64, pool []*keys.Iden
 	}
 
 	for step := -1; step < len(script); step++ {
-		// bring the batch to a quiescent point with a live stream
-		q := b.Quiesce(relay.LiveOK)
-		if !q.OK {
-			inconclusive(r, fmt.Sprintf("C19 script %d step %d", idx, step), q)
-			r.Case(sig, false)
-			return
-		}
-		if !check(step) {
-			r.Case(sig, true)
-			return
+		if step > 0 && script[step].Burst {
+			// delivered right behind the previous item: no quiescent point in between
+			r.Count("burst_deliveries", 1)
+		} else {
+			// bring the batch to a quiescent point with a live stream
+			q := b.Quiesce(relay.LiveOK)
+			if !q.OK {
+				inconclusive(r, fmt.Sprintf("C19 script %d step %d", idx, step), q)
+				r.Case(sig, false)
+				return
+			}
+			if !check(step) {
+				r.Case(sig, true)
+				return
+			}
 		}
 		s := relay.Cur()
 		if relay.NStreams() != nStreams {
 			// a new Session call: the previous one (if any) was torn down by the client
-			if nStreams > 0 {
+			// (or reset by the relay)
+			if nStreams > 0 && !killed {
 				r.Count("client_tore_down_stream", 1)
 			}
+			killed = false
 			nStreams = relay.NStreams()
 			epoch += 2
 			s.Push(g8sig.Opened(epoch))
@@ -166,8 +327,43 @@ func runC19(r *vf.Run, idx int, script []c19Item, seed uint64, pool []*keys.Iden
 		case it.Kind == "honest":
 			m := g8sig.Honest(a, it.Data, seq)
 			pushed = append(pushed, delivered{step, true, m})
+			originals = append(originals, m)
 			s.Push(g8sig.RecvMsg(m))
 			r.Count("delivered_honest", 1)
+		case isDerive(it.Kind) && len(originals) > 0:
+			h, h2 := source(it.Back)
+			if rng.IntN(2) == 0 {
+				seq = h.Seqno
+			}
+			m := g8sig.Derive(it.Kind[7:], h, h2, a, lb, c, it.Data, seq, rng)
+			pushed = append(pushed, delivered{step, false, m})
+			s.Push(g8sig.RecvMsg(m))
+			forgedConsumed++
+			derivedDelivered++
+			r.Count("delivered_"+it.Kind, 1)
+			r.Count("derived_forgeries_delivered", 1)
+			r.Distinct("derive_kind_x_distance", fmt.Sprintf("%s/back%d/gap%d", it.Kind[7:], it.Back, gapSince(script, step)))
+		case strings.HasPrefix(it.Kind, "replay") && len(originals) > 0:
+			// an exact copy of an accepted honest message (optionally under another
+			// outer seqno, which is not part of the signed envelope): still a
+			// message A signed and submitted, so the oracle counts it as honest
+			h, _ := source(it.Back)
+			m := h.CloneVT()
+			if it.Kind == "replay-newseq" {
+				m.Seqno = seq
+			}
+			pushed = append(pushed, delivered{step, true, m})
+			s.Push(g8sig.RecvMsg(m))
+			r.Count("delivered_"+it.Kind, 1)
+		case it.Kind == "kill-stream":
+			killed = true
+			s.Kill(errors.New("relay: stream reset"))
+			r.Count("delivered_kill_stream", 1)
+		case it.Kind == "clear-last":
+			if len(originals) > 0 {
+				s.Push(g8sig.ClearMsg(originals[len(originals)-1].Seqno))
+			}
+			r.Count("delivered_noise", 1)
 		case len(it.Kind) > 6 && it.Kind[:6] == "forge:":
 			m := g8sig.Forge(it.Kind[6:], a, lb, c, it.Data, seq, rng)
 			pushed = append(pushed, delivered{step, false, m})
@@ -207,6 +403,20 @@ func runC19(r *vf.Run, idx int, script []c19Item, seed uint64, pool []*keys.Iden
 	r.Case(sig, honestSeen > 0 && forgedConsumed > 0)
 	if ok {
 		r.Distinct("scripts", sig)
-		r.Sample(map[string]any{"script": sig, "honest_handed_over": honestSeen, "forged_delivered": forgedConsumed, "session_calls": relay.NStreams()})
+		if derivedDelivered > 0 {
+			r.Count("scripts_with_history_dependent_forgery", 1)
+		}
+		r.Sample(map[string]any{"script": sig, "honest_handed_over": honestSeen, "forged_delivered": forgedConsumed, "derived_from_accepted": derivedDelivered, "session_calls": relay.NStreams()})
 	}
+}
+
+// gapSince returns the number of script items between the derive item at step
+// and the nearest earlier honest / replay item (0 = immediately after).
+func gapSince(script []c19Item, step int) int {
+	for i := step - 1; i >= 0; i-- {
+		if k := script[i].Kind; k == "honest" || strings.HasPrefix(k, "replay") {
+			return step - 1 - i
+		}
+	}
+	return -1
 }
